@@ -334,6 +334,10 @@ def mddEngine (c i : List String) : Option Res := do
       -- C12
       let (okP, why) := phiProtocol fam root.depth io.log
       if !okP then f := ("C12:" ++ why) :: f
+      -- C15: with long arcs the pooled diagram must meet the same value / exactness / coverage clauses ((ii) is the open finding D5)
+      if req.kind == 2 && !(allImpacted fam) then
+        f := f ++ (f.filter (fun s => (s.startsWith "C06:" || s.startsWith "C07:" || s.startsWith "C08:") && !(s.startsWith "C08:(ii)"))).map
+          (fun s => "C15:long arcs: " ++ s)
       -- C10, sentence 1 at diagram level: with an admissible rule (fresh store) the value clauses of C06 - C08 still hold
       if fam.domRule.isSome then
         f := f ++ (f.filter (fun s => s.startsWith "C06:relaxed" || s.startsWith "C07:exact" || s.startsWith "C07:restricted" || s.startsWith "C08:(iv)")).map
